@@ -572,7 +572,11 @@ func (eng *Engine) checkProperty(prop string, timeoutMs int, all_ bool, verbose 
 	}
 	eng.solveAll(toSolve, timeoutMs, all)
 	for _, bc := range boundedRegistry {
-		if seen[bc.Key] {
+		run := seen[bc.Key]
+		for _, k := range bc.Also {
+			run = run || seen[k]
+		}
+		if run {
 			rep.Bounded = append(rep.Bounded, eng.runBounded(bc))
 		}
 	}
@@ -678,7 +682,7 @@ func (eng *Engine) touchesSharedState(fn *ssa.Function) bool {
 					return true
 				}
 			case *ssa.Store:
-				if foreignGlobalOf(x.Addr) != nil {
+				if globalOf(x.Addr) != nil && !strings.HasPrefix(fn.Name(), "init") {
 					return true
 				}
 			case ssa.CallInstruction:
